@@ -231,7 +231,8 @@ def run_case(spec):
                 from harness.monitors import c01
                 te = {'type': type(ex).__name__, 'msg': str(ex)[:300], 'tb': traceback.format_exc()[-1800:]}
                 counters['e2e_callvariant_crashes'] = 1
-                viol.append({'kind': 'e2e-callvariant-crash', 'mech': c01.crash_mech(te, {}),
+                if c01.crash_mech(te, {}) != 'TIMEOUT':
+                    viol.append({'kind': 'e2e-callvariant-crash', 'mech': c01.crash_mech(te, {}),
                              'msg': f'{tool}: {type(ex).__name__}: {str(ex)[:200]}'})
         feat = (tuple(sorted({e['modes'] for e in fusions})), tuple(sorted({(e['gd'].strand, e['ga'].strand) for e in fusions})),
                 any(e['unknown_gene'] for e in fusions), any(e['antisense'] for e in fusions), thr['min_confidence'],
